@@ -38,6 +38,7 @@ theorem verify_guard :
 /-- `transport.upgrade`: the authenticated key must be the dialed id, the self-reported id, and
 not the node itself (model: `Sts.upgrade`) -/
 theorem upgrade_guards :
+    Facts.c16_upgrade_outbound_guard = "dialedAddr != nil" ∧
     Facts.c16_upgrade_dialed_guard = "connID != dialedID" ∧
     Facts.c16_upgrade_nodeinfo_guard = "connID != nodeInfo.ID()" ∧
     Facts.c16_upgrade_self_guard = "mt.nodeInfo.ID() == nodeInfo.ID()" := by decide
